@@ -1127,3 +1127,228 @@ func ruleCDC15c(w *World, r *Report) {
 		r.Und("CDC-15c", "sites", "", "replayAOF no longer calls DB.AddEdge / DB.RemoveEdge (analysis lost its anchors)")
 	}
 }
+
+// ---------------------------------------------------------------------------------------------------------------
+// GRD-queryscale: an int8 query is quantized at its own scale.
+// The int8 cosine distance divides by both norms, so the magnitude of the query is irrelevant — but quantized with the
+// INDEX's range (learnt from the stored vectors at whatever magnitude they came in) a query keeps its resolution only
+// if it happens to have that magnitude.
+// ---------------------------------------------------------------------------------------------------------------
+func ruleGRDqueryscale(w *World, r *Report) {
+	r.Doc("GRD-queryscale", "on the query paths of the index (searchInternal, ComputeDistanceToVector and the helpers extracted from them) the query is quantized by a Quantizer whose range is computed from the query itself; the index's own quantizer quantizes a query only behind a test of that range (the all-zero / non-finite fallback): with the index's range a unit-length query against raw embeddings rounds to the zero vector (every distance 1.0, arbitrary results) and a raw query against a compressed index saturates", 2)
+	quant := w.FuncObj("pkg/core/distance", "Quantizer.Quantize")
+	if quant == nil {
+		r.Und("GRD-queryscale", "anchor:Quantizer.Quantize", "", "anchor lost")
+		return
+	}
+	n := 0
+	for _, name := range []string{"Index.searchInternal", "Index.ComputeDistanceToVector"} {
+		fi := w.Func(hnswPkg, name)
+		if fi == nil {
+			r.Und("GRD-queryscale", "anchor:"+name, "", "anchor lost")
+			continue
+		}
+		top := w.SSAFunc(fi.Obj)
+		// the function, and the functions of the package it hands the query and a quantizer to
+		scope := []*ssa.Function{top}
+		for _, b := range top.Blocks {
+			for _, in := range b.Instrs {
+				c, ok := in.(*ssa.Call)
+				if !ok {
+					continue
+				}
+				g := c.Call.StaticCallee()
+				if g == nil || g.Pkg != top.Pkg || len(g.Blocks) == 0 {
+					continue
+				}
+				for _, p := range g.Params {
+					if strings.HasSuffix(p.Type().String(), "distance.Quantizer") {
+						scope = append(scope, g)
+					}
+				}
+			}
+		}
+		k := 0
+		for _, f := range scope {
+			// values computed from the elements of a []float32 parameter of f (the query): its range
+			fromQuery := func(v ssa.Value) bool {
+				for _, l := range arithLeaves(v, 0) {
+					ld, ok := l.(*ssa.UnOp)
+					if !ok || ld.Op != token.MUL {
+						continue
+					}
+					if ia, ok := ld.X.(*ssa.IndexAddr); ok {
+						for _, rt := range append(valueRoots(ia.X), ia.X) {
+							if p, ok := rt.(*ssa.Parameter); ok && strings.HasPrefix(p.Type().String(), "[]float32") {
+								return true
+							}
+						}
+					}
+				}
+				return false
+			}
+			rangeTest := func(in ssa.Instruction) bool {
+				bo, ok := in.(*ssa.BinOp)
+				if !ok {
+					return false
+				}
+				switch bo.Op {
+				case token.GTR, token.GEQ, token.LSS, token.LEQ, token.EQL, token.NEQ:
+				default:
+					return false
+				}
+				if _, isIf := firstIf(bo); !isIf {
+					return false
+				}
+				return (fromQuery(bo.X) && !isInduction(bo.X)) || (fromQuery(bo.Y) && !isInduction(bo.Y))
+			}
+			for _, in := range findInstrs(f, callsTo(quant)) {
+				c := in.(*ssa.Call)
+				recv := c.Call.Args[0]
+				own := false // a Quantizer made here, its range stored from the query's
+				if al, ok := recv.(*ssa.Alloc); ok {
+					for _, st := range cellStores(al) {
+						if fa, ok := st.Addr.(*ssa.FieldAddr); ok {
+							if _, fld := structFieldName(fa.X.Type(), fa.Field); fld == "AbsMax" && fromQuery(st.Val) {
+								own = true
+							}
+						}
+					}
+				}
+				n++
+				k++
+				key := fmt.Sprintf("%s:quantize#%d:at-its-own-scale", strings.TrimPrefix(name, "Index."), k)
+				if own {
+					r.Ok("GRD-queryscale", key, w.Pos(c.Pos()), "quantized by a Quantizer whose range is the query's maximum")
+					continue
+				}
+				cI := ssa.Instruction(c)
+				unguarded, wit := (pathQuery{fn: f, target: func(x ssa.Instruction) bool { return x == cI }, avoid: rangeTest}).find(entryPos(f))
+				r.Cond(!unguarded, "GRD-queryscale", key, w.Pos(c.Pos()), "the index's quantizer is used only behind a test of the query's range", "the query is quantized with the index's own range ("+shortFn(f)+"): that range was learnt from the stored vectors at the magnitude they were inserted with, the query arrives at another one (searchInternal normalises it to unit length) — against raw embeddings with components around 100 every component of the query rounds to 0, every int8 distance is exactly 1.0 and the search returns arbitrary nodes; against an index compressed from float32 a raw query saturates at ±127", w.witness(wit)...)
+			}
+		}
+	}
+	if n == 0 {
+		r.Und("GRD-queryscale", "sites", "", "no Quantize call on the query paths (analysis lost its anchors, or the index no longer has an int8 precision)")
+	}
+}
+
+// ---------------------------------------------------------------------------------------------------------------
+// GRD-rmw (callers): nobody above the engine sends VSetMetadata a map it filled from a read of the same store.
+// VSetMetadata merges the keys it is given into the current metadata under the node's lock. A caller that reads the node
+// first (VGet), copies what it read into the map and adds its own keys turns that into a read-modify-write WITHOUT the
+// lock: every key it read goes back in time.
+// ---------------------------------------------------------------------------------------------------------------
+func ruleGRDrmwCallers(w *World, r *Report) {
+	r.Doc("GRD-rmw-callers", "outside pkg/engine, the property map handed to Engine.VSetMetadata is not filled from the result of Engine.VGet / VGetMany (no map update whose value comes out of an iteration over, or a look-up in, metadata that was read before the call): VSetMetadata merges under the node's lock, a pre-merged map carries every key the caller read — _access_count included — back in time, in memory and in the journal", 6)
+	set := w.FuncObj("pkg/engine", "Engine.VSetMetadata")
+	if set == nil {
+		r.Und("GRD-rmw-callers", "anchor:Engine.VSetMetadata", "", "anchor lost")
+		return
+	}
+	reads := map[string]bool{"Engine.VGet": true, "Engine.VGetMany": true, "Engine.VGetConnections": true}
+	var fromRead func(v ssa.Value, depth int, seen map[ssa.Value]bool) bool
+	fromRead = func(v ssa.Value, depth int, seen map[ssa.Value]bool) bool {
+		if v == nil || depth > 14 || seen[v] {
+			return false
+		}
+		seen[v] = true
+		switch x := v.(type) {
+		case *ssa.Call:
+			if o := calleeObj(&x.Call); o != nil && relPkg(o) == "pkg/engine" && reads[shortName(o)] {
+				return true
+			}
+		case *ssa.Extract:
+			return fromRead(x.Tuple, depth+1, seen)
+		case *ssa.Next:
+			return fromRead(x.Iter, depth+1, seen)
+		case *ssa.Range:
+			return fromRead(x.X, depth+1, seen)
+		case *ssa.Lookup:
+			return fromRead(x.X, depth+1, seen)
+		case *ssa.Field:
+			return fromRead(x.X, depth+1, seen)
+		case *ssa.FieldAddr:
+			return fromRead(x.X, depth+1, seen)
+		case *ssa.IndexAddr:
+			return fromRead(x.X, depth+1, seen)
+		case *ssa.Index:
+			return fromRead(x.X, depth+1, seen)
+		case *ssa.UnOp:
+			if x.Op == token.MUL {
+				base := x.X
+				for {
+					if fa, ok := base.(*ssa.FieldAddr); ok {
+						base = fa.X
+					} else if ia, ok := base.(*ssa.IndexAddr); ok {
+						base = ia.X
+					} else {
+						break
+					}
+				}
+				if al, ok := cellRoot(base).(*ssa.Alloc); ok { // a local (or a field of a local struct) that lives in memory
+					for _, st := range cellStores(al) {
+						if fromRead(st.Val, depth+1, seen) {
+							return true
+						}
+					}
+					return false
+				}
+			}
+			return fromRead(x.X, depth+1, seen)
+		case *ssa.Phi:
+			for _, e := range x.Edges {
+				if fromRead(e, depth+1, seen) {
+					return true
+				}
+			}
+		case *ssa.MakeInterface:
+			return fromRead(x.X, depth+1, seen)
+		case *ssa.ChangeType:
+			return fromRead(x.X, depth+1, seen)
+		case *ssa.TypeAssert:
+			return fromRead(x.X, depth+1, seen)
+		}
+		return false
+	}
+	n := 0
+	for _, fi := range w.ModuleFuncs() {
+		if relPkg(fi.Obj) == "pkg/engine" || strings.HasPrefix(relPkg(fi.Obj), "pkg/core") {
+			continue
+		}
+		top := w.SSAFunc(fi.Obj)
+		if top == nil {
+			continue
+		}
+		k := 0
+		for _, f := range append([]*ssa.Function{top}, closuresOf(top)...) {
+			for _, in := range findInstrs(f, callsTo(set)) {
+				c := in.(*ssa.Call)
+				n++
+				k++
+				m := c.Call.Args[len(c.Call.Args)-1]
+				bad := fromRead(m, 0, map[ssa.Value]bool{}) // the map that was read is sent back as it is
+				var at ssa.Instruction
+				for _, root := range append(phiLeavesOf(m), m) {
+					refs := root.Referrers()
+					if refs == nil {
+						continue
+					}
+					for _, ref := range *refs {
+						if mu, ok := ref.(*ssa.MapUpdate); ok && mu.Map == root && fromRead(mu.Value, 0, map[ssa.Value]bool{}) {
+							bad, at = true, mu
+						}
+					}
+				}
+				wit := []ssa.Instruction{}
+				if at != nil {
+					wit = append(wit, at)
+				}
+				r.Cond(!bad, "GRD-rmw-callers", fmt.Sprintf("%s:VSetMetadata#%d:sends-its-own-keys-only", fnKey(top), k), w.Pos(c.Pos()), "the map holds the caller's own keys", fnKey(top)+" fills the map it hands to VSetMetadata with what it read from the node before (VGet, outside the node's metadata lock): a VReinforce or another update acknowledged between that read and the write is overwritten with the older values — N acknowledged reinforcements leave _access_count below N, in memory and in the journal", w.witness(wit)...)
+			}
+		}
+	}
+	if n == 0 {
+		r.Und("GRD-rmw-callers", "sites", "", "no call of Engine.VSetMetadata outside the engine (analysis lost its anchors)")
+	}
+}
